@@ -62,6 +62,13 @@ def run_case(c):
         # the factorization is scale invariant: very large or very small tensors (norms beyond 1e154 / below 1e-154)
         f = (1e90, 1e-80)[(c['seed'] // 5) % 2]
         x.A[0] = x.A[0] * f; x.A[-1] = x.A[-1] * f
+    if c['seed'] % 5 == 1 and c['entries'] in ('complex', 'real') and L >= 2:
+        # a badly balanced gauge on one bond index: the slice of the left tensor is scaled by 1e-15, the matching slice of the right
+        # tensor by 1e+15 (the object is unchanged and of ordinary magnitude; an absolute threshold on a factor would cut the index off)
+        i = int(rng.integers(1, L)); b = int(rng.integers(x.A[i].shape[-2]))
+        if np.issubdtype(x.A[i - 1].dtype, np.inexact) and np.issubdtype(x.A[i].dtype, np.inexact):
+            x.A[i - 1] = x.A[i - 1].copy(); x.A[i] = x.A[i].copy()
+            x.A[i - 1][..., b] *= 1e-15; x.A[i][..., b, :] *= 1e15
     if c['seed'] % 2 == 1 and L >= 3:
         # the same array object on several sites (translation-invariant bulk): sites with equal shapes and bond charges share one tensor
         for i in range(1, L - 1):
